@@ -259,7 +259,7 @@ def gen_history(rng, quick=True, min_ops=3, max_ops=25):
         elif t < 0.83:
             ops.append(["recalc"])
         elif t < 0.88:
-            ops.append(["setGlobal", rng.choice([30, 60, 120])])
+            ops.append(["setGlobal", rng.choice([30, 60, 120, 45, 75])])
         elif t < 0.91:
             ops.append(["read"])
         elif t < 0.94:
@@ -388,7 +388,7 @@ def apply_op(q, d, op, last_samples, cap=None, by=None):
     elif t == "recalc":
         d.recalculate()
     elif t == "setGlobal":
-        q.set_monte_carlo_sample_size(op[1])
+        M.set_global(q, op[1])
     elif t == "read":
         _ = d.value, d.error
     elif t == "samples":
@@ -612,6 +612,8 @@ def judge_history(h, tr, m, failures, dist):
         inp = hist_describe(h, tr, si)
         b = dict(base, input=inp, step=si)
         dist["op:" + opname] += 1
+        if opname == "setGlobal":
+            dist["setGlobal:through-the-" + M.global_route(rec["op"][1])] += 1
         if "crash" in rec:
             failures.append(dict(b, signature="c16:history:crash:{}:{}".format(
                 rec["crash"].split(":")[0], opname), what="operation or the read after it raised "
@@ -798,8 +800,8 @@ def correspond(ctx):
     rw = run_walks(ctx, ctx.n(4000, 150000))
     rh = run_histories(ctx, ctx.n(150, 3000))
     # deliberate scenarios (several per run): pictures while nothing is buffered; bystanders
-    forced = [gen_display_history(ctx.rng, ctx.quick) for _ in range(ctx.n(30, 400))] + \
-             [gen_bystander_history(ctx.rng, ctx.quick) for _ in range(ctx.n(16, 200))]
+    forced = [gen_display_history(ctx.rng, ctx.quick) for _ in range(ctx.n(30, 300))] + \
+             [gen_bystander_history(ctx.rng, ctx.quick) for _ in range(ctx.n(16, 120))]
     rf = run_histories(ctx, 0, hists=forced)
     rh["evaluations"] += rf["evaluations"]
     rh["nontrivial"] |= rf["nontrivial"]
